@@ -1,7 +1,7 @@
 (** C01: execution equals the sequential reference semantics under any scheduling and execution mode.
     Statements only; proofs are in Gql/ProofsSched.v, Gql/ProofsSplit.v. *)
 From Coq Require Import List String Bool Arith Permutation ZArith.
-From Thunder Require Import Lib.Json Gql.Types Gql.Value Gql.Query Gql.Ref Gql.Exec Gql.ProofsSched Gql.ProofsSplit.
+From Thunder Require Import Lib.Json Gql.Types Gql.Value Gql.Query Gql.Ref Gql.Exec Gql.ProofsSched Gql.ProofsSplit Gql.Witness Gql.ProofsWitness.
 Import ListNotations.
 Open Scope string_scope.
 Open Scope list_scope.
@@ -59,6 +59,17 @@ Print Assumptions split_work_unit_pairs.
    of eval_ref), which also gives the NoDup hypothesis; (b) termination: the forest is finite for every
    valid query (hypothesis [Forall2 P ...] above is stated per case and checked by vm_compute in the
    Example). *)
+
+(** The code before the repair of resolveUnionBatch (model variant [original]) does not compute the
+    reference result: two fragments on one union member, the second replaces the first (F4), and a
+    member without fragment renders as null (F5).  Replayed on the real code by corpus/C01/f4-*.json. *)
+Theorem execution_equals_reference_original_refuted :
+  exists S vs q root,
+    (exists ss, parse vs q = Some ss /\ snd (eval_ref S 40 ss root) = []) /\
+    norm_result (exec_fifo original S vs q root) <> ref_result_of S vs q root /\
+    norm_result (exec_fifo fixed S vs q root) = ref_result_of S vs q root.
+Proof. exists w_schema, [], w_f4, w_root. exact f4_witness. Qed.
+Print Assumptions execution_equals_reference_original_refuted.
 
 (** The hypotheses are satisfiable by a non-trivial state: a list of keyed objects with a batch field
     split in two, a plain function field and a union. *)
